@@ -292,6 +292,16 @@ func runC17(ctx *Ctx) {
 				r.Violate("PCO/UnMarshal-unit", cs, fmt.Sprintf("unit %d: %+v want %+v", k, u, o), nil)
 			}
 		}
+		// the decoded units are the caller's: extending the contents of one (append) must not reach into the others
+		for k, u := range back.ProtocolOrContainerList {
+			u.Contents = append(u.Contents, 0xee, 0xee, 0xee, 0xee, 0xee, 0xee)
+			for k2, u2 := range back.ProtocolOrContainerList {
+				if k2 != k && !bytes.Equal(u2.Contents[:min(len(u2.Contents), len(pco.ProtocolOrContainerList[k2].Contents))], pco.ProtocolOrContainerList[k2].Contents) {
+					r.Violate("PCO/UnMarshal-units-share-storage", cs, fmt.Sprintf("after appending to the contents of unit %d, unit %d reads %x (was %x)", k, k2, u2.Contents, pco.ProtocolOrContainerList[k2].Contents), nil)
+					return
+				}
+			}
+		}
 	})
 	r.Sample("pco [000d len 4] [0010 len 2] -> Marshal -> 80 000d04.. 001002.. -> UnMarshal")
 	// Add* helpers
